@@ -172,7 +172,23 @@ def tie(ctx):
                 extra["display_format"] = "true"
             if k % 12 == 8:
                 extra["min_avg_coverage"] = "0.05"   # (a sparse second gene: accepted live with this value, so accepted on replay)
-            inp = {"genes": [y for y, _, _ in genes], "seed_index": k, "gap": gap, "params": extra}
+            # every fifth run uses a profile FILE whose options section sets a parameter the command line sets too (the
+            # file says min_avg_coverage = 1000, which would reject the sample; the caller says 0.05): the caller's value is
+            # in force on the run, it is the one stored in the archive, and it is in force on the replay
+            prof_arg, cnr_arg, ntoks = pbam, cnr, ["-n", f"20:{cnr.start}-{cnr.end}"]
+            if k % 5 == 0:
+                import yaml as _yaml
+                from aldy.profile import Profile as _Profile
+                regs = {(g_.name, reg, gi): rng for _, g_, _ in genes for gi, gg in enumerate(g_.regions) for reg, rng in gg.items()}
+                data = _Profile.get_sam_profile_data(pbam, regions=regs, genome="hg19", cn_region=cnr)
+                data["options"] = {"min_avg_coverage": 1000.0}
+                prof_arg = os.path.join(d, f"profile{k}.yml")
+                with open(prof_arg, "w") as f:
+                    f.write(_yaml.dump(data, default_flow_style=None))
+                cnr_arg, ntoks = None, []
+                extra["min_avg_coverage"] = "0.05"
+                stats["profile_file_with_colliding_option"] += 1
+            inp = {"genes": [y for y, _, _ in genes], "seed_index": k, "gap": gap, "params": extra, "profile_file_options": k % 5 == 0}
             ptoks = [f"{a}={b}" for a, b in extra.items()]
             gene_arg = ",".join(p for _, _, p in genes)
             # ---- (1) API level: run with debug prefix, then replay each dump file --------------------------
@@ -182,7 +198,7 @@ def tie(ctx):
             out2 = os.path.join(d, f"o2_{k}.aldy")
             # ---- (2) CLI level ------------------------------------------------------------------------------
             dbg = os.path.join(d, f"archive{k}")
-            argv1 = ["genotype", sbam, "-g", gene_arg, "-p", pbam, "-n", f"20:{cnr.start}-{cnr.end}", "-o", out1, "--debug", dbg, "--genome", "hg19",
+            argv1 = ["genotype", sbam, "-g", gene_arg, "-p", prof_arg] + ntoks + ["-o", out1, "--debug", dbg, "--genome", "hg19",
                      "--param", f"gap={gap}"] + ptoks
             code1, so1, se1 = run_cli(argv1)
             fam["dump_replay"]["cases"] += 1
@@ -200,7 +216,7 @@ def tie(ctx):
                 violations.append({"why": f"output file of the replayed archive differs at line {kk}: {l1[kk:kk + 1]} vs {l2[kk:kk + 1]}", "input": inp, "signature": "c17:output_file_differs"})
             # API-level comparison of the solution objects
             try:
-                r1 = genotype(gene_arg, sbam, pbam, output_file=None, cn_region=cnr, genome="hg19", gap=gap, **extra)
+                r1 = genotype(gene_arg, sbam, prof_arg, output_file=None, cn_region=cnr_arg, genome="hg19", gap=gap, **extra)
                 e1 = None
             except AldyException as e:
                 r1, e1 = {}, str(e)[:80]
@@ -216,7 +232,7 @@ def tie(ctx):
             stats["solutions"] += sum(len(v) for v in r1.values())
             # ---- (3) dump format vs Lean ------------------------------------------------------------------
             for y, g, ypath in genes:
-                prof = Profile.load(g, pbam, cnr, **extra)
+                prof = Profile.load(g, prof_arg, cnr_arg, **extra)
                 s1 = Sample(g, prof, sbam, debug=prefix)
                 stats["without_indelpost"] += bool(extra)
                 dump_path = f"{prefix}.{g.name}.dump"
